@@ -53,3 +53,68 @@ func VerifBitsReadTwin() {
 	symapi.Assert(got == want, "twin-wrong-bit-order")
 	symapi.Reach("end")
 }
+
+// refUe decodes ue(v) (H.264 9.1) bit by bit starting at bit offset off; ok=false when
+// the code does not fit in the buffer or has more than 32 leading zeros.
+func refUe(buf []byte, off int) (val uint64, next int, ok bool) {
+	total := len(buf) * 8
+	k := 0
+	for {
+		if off >= total {
+			return 0, 0, false
+		}
+		b := refBit(buf, off)
+		off++
+		if b == 1 {
+			break
+		}
+		k++
+		if k > 32 {
+			return 0, 0, false
+		}
+	}
+	if off+k > total {
+		return 0, 0, false
+	}
+	var x uint64
+	for i := 0; i < k; i++ {
+		x = x<<1 | refBit(buf, off+i)
+	}
+	return (uint64(1)<<uint(k) - 1) + x, off + k, true
+}
+
+// VerifBitsUe: ReadUe equals ue(v) for every code with at most 31 leading zeros.
+func VerifBitsUe() {
+	N := symapi.Param("N", 3)
+	buf := symapi.Bytes("buf", N)
+	off := symapi.IntRange("off", 0, 7)
+	want, next, ok := refUe(buf, off)
+	symapi.Assume(ok && want < 1<<32-1)
+	r := NewReader(buf)
+	r.Skip(off)
+	got := r.ReadUe()
+	symapi.Assert(uint64(got) == want, "ue-value")
+	symapi.Assert(r.Offset() == next, "ue-offset")
+	symapi.Reach("end")
+}
+
+// VerifBitsSe: ReadSe equals se(v): codeNum k -> (-1)^(k+1) * ceil(k/2).
+func VerifBitsSe() {
+	N := symapi.Param("N", 3)
+	buf := symapi.Bytes("buf", N)
+	off := symapi.IntRange("off", 0, 7)
+	k, next, ok := refUe(buf, off)
+	symapi.Assume(ok && k < 1<<32-1)
+	var want int64
+	if k&1 == 1 {
+		want = int64((k + 1) / 2)
+	} else {
+		want = -int64(k / 2)
+	}
+	r := NewReader(buf)
+	r.Skip(off)
+	got := r.ReadSe()
+	symapi.Assert(int64(got) == want, "se-value")
+	symapi.Assert(r.Offset() == next, "se-offset")
+	symapi.Reach("end")
+}
